@@ -30,6 +30,7 @@ def dispatch (cmd : String) : Option (P String) :=
   | "c05.eval" => some C05.eval
   | "c05.correct" => some C05.correct
   | "c14.generate" => some C05.generate
+  | "c14.norm" => some C05.norm
   | "c06.misfit" => some C06.misfit
   | "c06.update" => some C06.update
   | "c08.fault" => some C08.fault
